@@ -15,6 +15,8 @@ TStatic == /\ IsEv("static")
                   ok == /\ ~e.panicked
                         /\ e.kind = p.kind /\ e.id = p.id
                         /\ (p.kind = "redirect" => e.loc = p.loc)
+                        \* a conditional re-request with the ETag just received: not modified, no body
+                        /\ (e.inm_status # 0 => e.inm_status = 304 /\ e.inm_body = 0)
                         /\ (p.kind = "silent" => ~e.written /\ e.next_ran /\ e.leaked = 0)   \* writes nothing (no status, no body,
                                                                                              \* no header), the rest of the chain runs
               IN Verdict(IF ok THEN "ok" ELSE "bad")
